@@ -113,7 +113,7 @@ for fl in failing[:1]:
 wall = t1 - t0
 ev = {"property_id":"C24","tier":"thorough" if mode=="thorough" else "quick","seed":seed,"level":"exploration",
  "coverage":{"evaluations":max(runs,1),"distinct_nontrivial":len(inter),
-  "rule":"each evaluation = one Miri execution (one -Zmiri-seed = one repeatable thread interleaving) of mirisim. Cold variants: 2-3 threads released from a barrier with cold statics, each parsing one of two schemas that share all names, compiling and executing a query (racing the OnceLock statics of schema/mod.rs, ir/mod.rs, ir/types/base.rs), then 3 threads executing six shared never-executed Arc<IndexedQuery> in the same order with two different argument sets and compiling a query of their own over one shared Arc<Schema>. Hot variants: 3-4 threads executing the six shared compiled queries twice each at the same time. The six queries cover folds with count filters/tags, nested outputs, @optional, @recurse, a coercion through an interface edge, __typename, and every filter family with variable and with tag operands (ordering, =/!=, one_of/not_one_of, has_prefix/has_suffix/has_substring, regex/not_regex, is_not_null); thread results must equal a sequential recomputation with the same arguments, Miri must report no data race or UB; distinct_nontrivial = distinct checkpoint logs (thread ids appended under a mutex at every adapter call), i.e. distinct observed interleavings; plus a compile-time Send+Sync assertion for Schema, IndexedQuery, IRQuery, InterpretedQuery, FieldValue, Type, EdgeParameters",
+  "rule":"each evaluation = one Miri execution (one -Zmiri-seed = one repeatable thread interleaving) of mirisim. Cold variants: 2-3 threads released from a barrier with cold statics, each parsing one of two schemas that share all names, compiling and executing a query (racing the OnceLock statics of schema/mod.rs, ir/mod.rs, ir/types/base.rs), then 3 threads executing six shared never-executed Arc<IndexedQuery> in the same order with two different argument sets and compiling a query of their own over one shared Arc<Schema>. Hot variants: 3-4 threads, each over a dataset of its own, executing the variant focus query three times and then the six shared compiled queries, at the same time. The six queries cover folds with count filters/tags, nested outputs, @optional, @recurse, a coercion through an interface edge, __typename, and every filter family with variable and with tag operands (ordering, =/!=, one_of/not_one_of, has_prefix/has_suffix/has_substring, regex/not_regex, is_not_null); thread results must equal a sequential recomputation with the same arguments, Miri must report no data race or UB; distinct_nontrivial = distinct checkpoint logs (thread ids appended under a mutex at every adapter call), i.e. distinct observed interleavings; plus a compile-time Send+Sync assertion for Schema, IndexedQuery, IRQuery, InterpretedQuery, FieldValue, Type, EdgeParameters",
   "samples":samples,"miri_seeds_run":runs,"miri_seeds_ok":ok,"fault_kinds_fired":{"F10_thread_preemption_schedules":runs},
   "runs_per_hour": int(runs / wall * 3600) if wall > 0 else 0,
   "components":{"real_code":["trustfall_core (Schema::parse, frontend::parse, interpret_ir) interpreted by Miri with real std::sync"],"stubs":["data source (TinyAdapter, arithmetic graph)","thread scheduler (Miri, seeded)"]},
